@@ -63,7 +63,7 @@ structure Input where
   structFiles : Entries String (List String)        -- rest: file ↦ fields it declares for the struct parameter
   writeSet : Entries String Unit                    -- map: a write-set
   coverTest : String → Bool
-  passes : List ((String → Bool) × Entries String String)   -- map: nilCheckWrite passes (cover test, pointer-type map)
+  passes : List (String × (String → Bool) × Entries String String)   -- map: nilCheckWrite passes (label, cover test, pointer-type map)
   outputs : Entries String String                   -- srcMap: file name ↦ bytes
   dir : Entries String String                       -- the directory before the writes
 
@@ -89,8 +89,8 @@ def run (o : Oracle) (i : Input) : Output :=
     header := fun verb key => (get (hdrTables o i) verb).bind (fun tab => get tab key),
     structFields := gather (o.order "extractStructFields" i.structFiles),
     neverWritten := !covered (o.order "neverWriteCheck" i.writeSet) i.coverTest,
-    ptrPaths := (ptrPaths (i.passes.zipIdx.map (fun p => (p.1.1, o.order ("nilCheckWrite/" ++ toString p.2) p.1.2)))).1,
-    ptrType := fun k => get (ptrPaths (i.passes.zipIdx.map (fun p => (p.1.1, o.order ("nilCheckWrite/" ++ toString p.2) p.1.2)))).2 k,
+    ptrPaths := (ptrPaths (i.passes.map (fun p => (p.2.1, o.order ("nilCheckWrite/" ++ p.1) p.2.2)))).1,
+    ptrType := fun k => get (ptrPaths (i.passes.map (fun p => (p.2.1, o.order ("nilCheckWrite/" ++ p.1) p.2.2)))).2 k,
     file := fun n => get (writeAll (o.order "main/srcMap" i.outputs) i.dir) n }
 
 /-- the success message of this execution (main.go:86-88): not part of `Output` -/
@@ -101,7 +101,7 @@ def message (o : Oracle) (i : Input) : List String := messageOf (o.order "main/s
 /-- the inputs are maps -/
 def isMaps (i : Input) : Prop :=
   (keys i.alias).Nodup ∧ (keys i.headers).Nodup ∧ (keys i.kv).Nodup ∧ (keys i.tables).Nodup ∧
-  (keys i.outputs).Nodup ∧ (∀ p ∈ i.passes, (keys p.2).Nodup)
+  (keys i.outputs).Nodup ∧ (∀ p ∈ i.passes, (keys p.2.2).Nodup)
 
 /-- all `TypeName` definitions of a requested name sit in one file (in particular: the name is unique) -/
 def goFileUnique (i : Input) : Prop :=
